@@ -115,3 +115,225 @@ pub proof fn lemma_top_redundant(x: BDD, y: BDD)
     assert(sem_eq(t, f));
     lemma_canon(t, f, key(v) + 1);
 }
+
+// ---------------------------------------------------------------- counting (C05)
+
+/// number of diagrams in bs that are true under a
+pub open spec fn count(bs: Seq<Rc<BDD>>, a: Asg) -> int
+    decreases bs.len()
+{
+    if bs.len() == 0 { 0 } else { (if eval(*bs[0], a) { 1int } else { 0int }) + count(bs.subrange(1, bs.len() as int), a) }
+}
+
+pub open spec fn all_robdd(bs: Seq<Rc<BDD>>, lo: int) -> bool {
+    forall|i: int| 0 <= i < bs.len() ==> robdd(*#[trigger] bs[i], lo)
+}
+
+pub proof fn lemma_count_bounds(bs: Seq<Rc<BDD>>, a: Asg)
+    ensures 0 <= count(bs, a) <= bs.len()
+    decreases bs.len()
+{
+    if bs.len() > 0 { lemma_count_bounds(bs.subrange(1, bs.len() as int), a); }
+}
+
+// [A16] a slice of Rc pointers occupies at most isize::MAX bytes (std guarantee for every allocation)
+#[verifier::external_body]
+pub proof fn axiom_slice_len(s: &[Rc<BDD>])
+    ensures s@.len() <= 0x0fff_ffff_ffff_ffff
+{}
+
+/// the comparator argument of cmp_count_compare behaves as "at least k of l" / "at most k of l"
+pub open spec fn cmp_is_aln<F: Fn(&BDDEnv, &[Rc<BDD>], i64) -> Rc<BDD>>(cmp: F) -> bool {
+    forall|e: &BDDEnv, l: &[Rc<BDD>], k: i64, res: Rc<BDD>| #[trigger] cmp.ensures((e, l, k), res)
+        ==> forall|s: Asg| #[trigger] eval(*res, s) == (count(l@, s) >= k)
+}
+pub open spec fn cmp_is_amn<F: Fn(&BDDEnv, &[Rc<BDD>], i64) -> Rc<BDD>>(cmp: F) -> bool {
+    forall|e: &BDDEnv, l: &[Rc<BDD>], k: i64, res: Rc<BDD>| #[trigger] cmp.ensures((e, l, k), res)
+        ==> forall|s: Asg| #[trigger] eval(*res, s) == (count(l@, s) <= k)
+}
+pub open spec fn cmp_keeps_robdd<F: Fn(&BDDEnv, &[Rc<BDD>], i64) -> Rc<BDD>>(cmp: F) -> bool {
+    forall|e: &BDDEnv, l: &[Rc<BDD>], k: i64, res: Rc<BDD>| #[trigger] cmp.ensures((e, l, k), res)
+        ==> forall|lo: int| all_robdd(l@, lo) ==> #[trigger] robdd(*res, lo)
+}
+
+// ---------------------------------------------------------------- quantifiers (C04)
+
+/// exists over the list vs, outermost variable first (the recursion of BDDEnv::exists)
+pub open spec fn exq(vs: Seq<Sym>, b: BDD, a: Asg) -> bool
+    decreases vs.len()
+{
+    if vs.len() == 0 { eval(b, a) } else {
+        exq(vs.subrange(1, vs.len() as int), b, upd(a, vs[0], true))
+        || exq(vs.subrange(1, vs.len() as int), b, upd(a, vs[0], false))
+    }
+}
+
+pub open spec fn allq(vs: Seq<Sym>, b: BDD, a: Asg) -> bool
+    decreases vs.len()
+{
+    if vs.len() == 0 { eval(b, a) } else {
+        allq(vs.subrange(1, vs.len() as int), b, upd(a, vs[0], true))
+        && allq(vs.subrange(1, vs.len() as int), b, upd(a, vs[0], false))
+    }
+}
+
+/// two assignments agree on every variable outside vs
+pub open spec fn agree_outside(a: Asg, t: Asg, vs: Seq<Sym>) -> bool {
+    forall|w: Sym| !vs.contains(w) ==> #[trigger] t(w) == a(w)
+}
+
+pub proof fn lemma_exq_dual(vs: Seq<Sym>, b: BDD, nb: BDD, a: Asg)
+    requires forall|t: Asg| #[trigger] eval(nb, t) == !eval(b, t)
+    ensures exq(vs, nb, a) == !allq(vs, b, a)
+    decreases vs.len()
+{
+    if vs.len() > 0 {
+        lemma_exq_dual(vs.subrange(1, vs.len() as int), b, nb, upd(a, vs[0], true));
+        lemma_exq_dual(vs.subrange(1, vs.len() as int), b, nb, upd(a, vs[0], false));
+    }
+}
+
+// ---------------------------------------------------------------- validity / satisfiability corollaries of canonicity (C02)
+
+pub open spec fn valid(b: BDD) -> bool { forall|a: Asg| eval(b, a) }
+pub open spec fn unsat(b: BDD) -> bool { forall|a: Asg| !eval(b, a) }
+
+/// a valid ROBDD is literally the true leaf, an unsatisfiable one literally the false leaf
+pub proof fn lemma_valid_true(b: BDD, lo: int)
+    requires robdd(b, lo)
+    ensures (b == BDD::True) == valid(b), (b == BDD::False) == unsat(b)
+{
+    if valid(b) { assert(sem_eq(b, BDD::True)); lemma_canon(b, BDD::True, lo); }
+    if unsat(b) { assert(sem_eq(b, BDD::False)); lemma_canon(b, BDD::False, lo); }
+    let a0: Asg = |w: Sym| true;
+    if b == BDD::True { assert(eval(b, a0)); }
+    if b == BDD::False { assert(!eval(b, a0)); }
+}
+
+/// a ROBDD other than the false leaf has a satisfying assignment (and dually)
+pub proof fn lemma_nonfalse_sat(b: BDD, lo: int) -> (a: Asg)
+    requires robdd(b, lo), b != BDD::False
+    ensures eval(b, a)
+{
+    lemma_valid_true(b, lo);
+    choose|a: Asg| eval(b, a)
+}
+
+/// variable w is tested somewhere in b
+pub open spec fn occurs(b: BDD, w: Sym) -> bool
+    decreases b
+{
+    match b {
+        BDD::False => false,
+        BDD::True => false,
+        BDD::Choice(t, v, f) => v == w || occurs(*t, w) || occurs(*f, w),
+    }
+}
+
+/// b is a single path to the true leaf: a conjunction of literals
+pub open spec fn cube(b: BDD) -> bool
+    decreases b
+{
+    match b {
+        BDD::False => false,
+        BDD::True => true,
+        BDD::Choice(t, v, f) => (*f == BDD::False && cube(*t)) || (*t == BDD::False && cube(*f)),
+    }
+}
+
+/// the ROBDD of (lhs and v), v below every variable of lhs, is the node (lhs, v, False)
+pub proof fn lemma_and_var_cube(r: BDD, lhs: BDD, v: Sym)
+    requires robdd(r, key(v)), robdd(lhs, key(v) + 1), lhs != BDD::False,
+             forall|s: Asg| #[trigger] eval(r, s) == (eval(lhs, s) && s(v))
+    ensures r is Choice, r->1 == v, *r->0 == lhs, *r->2 == BDD::False
+{
+    let s0 = lemma_nonfalse_sat(lhs, key(v) + 1);
+    let s1 = upd(s0, v, true);
+    let s2 = upd(s0, v, false);
+    lemma_indep(lhs, key(v) + 1, s0, v, true);
+    assert(eval(r, s1));
+    assert(!eval(r, s2));
+    assert(r is Choice);
+    let rt = *r->0; let rv = r->1; let rf = *r->2;
+    if rv != v {
+        lemma_indep(r, key(v) + 1, s0, v, true);
+        lemma_indep(r, key(v) + 1, s0, v, false);
+        assert(false);
+    }
+    assert forall|s: Asg| eval(rt, s) == eval(lhs, s) by {
+        lemma_indep(rt, key(v) + 1, s, v, true);
+        lemma_indep(lhs, key(v) + 1, s, v, true);
+        assert(eval(r, upd(s, v, true)) == eval(rt, upd(s, v, true)));
+    }
+    assert(sem_eq(rt, lhs));
+    lemma_canon(rt, lhs, key(v) + 1);
+    assert forall|s: Asg| eval(rf, s) == eval(BDD::False, s) by {
+        lemma_indep(rf, key(v) + 1, s, v, false);
+        assert(eval(r, upd(s, v, false)) == eval(rf, upd(s, v, false)));
+    }
+    assert(sem_eq(rf, BDD::False));
+    lemma_canon(rf, BDD::False, key(v) + 1);
+}
+
+/// the ROBDD of (not v and rhs) is the node (False, v, rhs)
+pub proof fn lemma_and_nvar_cube(r: BDD, rhs: BDD, v: Sym)
+    requires robdd(r, key(v)), robdd(rhs, key(v) + 1), rhs != BDD::False,
+             forall|s: Asg| #[trigger] eval(r, s) == (!s(v) && eval(rhs, s))
+    ensures r is Choice, r->1 == v, *r->0 == BDD::False, *r->2 == rhs
+{
+    let s0 = lemma_nonfalse_sat(rhs, key(v) + 1);
+    let s1 = upd(s0, v, true);
+    let s2 = upd(s0, v, false);
+    lemma_indep(rhs, key(v) + 1, s0, v, false);
+    assert(!eval(r, s1));
+    assert(eval(r, s2));
+    assert(r is Choice);
+    let rt = *r->0; let rv = r->1; let rf = *r->2;
+    if rv != v {
+        lemma_indep(r, key(v) + 1, s0, v, true);
+        lemma_indep(r, key(v) + 1, s0, v, false);
+        assert(false);
+    }
+    assert forall|s: Asg| eval(rf, s) == eval(rhs, s) by {
+        lemma_indep(rf, key(v) + 1, s, v, false);
+        lemma_indep(rhs, key(v) + 1, s, v, false);
+        assert(eval(r, upd(s, v, false)) == eval(rf, upd(s, v, false)));
+    }
+    assert(sem_eq(rf, rhs));
+    lemma_canon(rf, rhs, key(v) + 1);
+    assert forall|s: Asg| eval(rt, s) == eval(BDD::False, s) by {
+        lemma_indep(rt, key(v) + 1, s, v, true);
+        assert(eval(r, upd(s, v, true)) == eval(rt, upd(s, v, true)));
+    }
+    assert(sem_eq(rt, BDD::False));
+    lemma_canon(rt, BDD::False, key(v) + 1);
+}
+
+/// satisfiability of a node from satisfiability of a child (children do not test the node's variable)
+pub proof fn lemma_sat_child(b: BDD, lo: int)
+    requires b is Choice, robdd(b, lo)
+    ensures unsat(b) == (unsat(*b->0) && unsat(*b->2))
+{
+    let t = *b->0; let v = b->1; let f = *b->2;
+    if unsat(t) && unsat(f) {
+        assert forall|a: Asg| !eval(b, a) by { assert(!eval(t, a)); assert(!eval(f, a)); }
+    }
+    if !unsat(t) {
+        let s = choose|s: Asg| eval(t, s);
+        lemma_indep(t, key(v) + 1, s, v, true);
+        assert(eval(b, upd(s, v, true)));
+    }
+    if !unsat(f) {
+        let s = choose|s: Asg| eval(f, s);
+        lemma_indep(f, key(v) + 1, s, v, false);
+        assert(eval(b, upd(s, v, false)));
+    }
+}
+
+// ---------------------------------------------------------------- fixed-point iteration (C06)
+
+/// tr is the sequence a, t(a), t(t(a)), .. up to r, every step a real call of t that changed the value
+pub open spec fn is_fp_trace<F: Fn(Rc<BDD>) -> Rc<BDD>>(t: F, a: Rc<BDD>, tr: Seq<Rc<BDD>>, r: Rc<BDD>) -> bool {
+    tr.len() > 0 && tr[0] == a && tr[tr.len() - 1] == r
+    && forall|i: int| 0 <= i < tr.len() - 1 ==> t.ensures((#[trigger] tr[i],), tr[i + 1]) && *tr[i + 1] != *tr[i]
+}
